@@ -258,6 +258,22 @@ Theorem mgm2_async_pair_move_cost : forall d stop thr favor orc fuel cf1 cf2 j p
                         + cost_at (shared_cons d p o) (RA2 d thr favor orc j) + vcost d p vp.
 Proof. exact mgm2_async_pair_move_cost_closed. Qed.
 
+(* cycles WITH commitments: two constraint-sharing variables that both changed their value between boundary j and
+   boundary j+1 are the two partners of ONE committed pair of round j, and both said go -- the second sentence of the
+   property ("no two constraint-sharing variables change value in the same cycle unless they are the two partners of one
+   coordinated MGM2 move"), full, for every schedule (no guard).  By mgm2_payload_invariant the r2_* values are the
+   committed / partner / can_move fields of the real computations in that cycle *)
+From PyDcop Require Import P_Mgm2pD.
+Theorem mgm2_async_movers : forall d stop thr favor orc fuel cf1 cf2 j n m, fuel_ok d fuel ->
+  reachable (mgm2_proto_f d stop thr favor orc fuel) cf1 -> reachable (mgm2_proto_f d stop thr favor orc fuel) cf2 ->
+  at_boundary2 d cf1 j -> at_boundary2 d cf2 (S j) ->
+  In n (ids d) -> In m (ids d) -> held2 cf2 n <> held2 cf1 n -> held2 cf2 m <> held2 cf1 m -> In m (nbrs d n) ->
+  let a := RA2 d thr favor orc j in let o := RO2 d thr favor orc j in
+  r2_committed d thr favor a o n = true /\ r2_partner d thr favor a o n = Some m /\
+  r2_committed d thr favor a o m = true /\ r2_partner d thr favor a o m = Some n /\
+  r2_go d thr favor a o n = true /\ r2_go d thr favor a o m = true.
+Proof. exact mgm2_async_movers_closed. Qed.
+
 (* the hypotheses are met by real runs.  (1) ex2_d, stop_cycle 2, every node draws 0 for its start value and 700
    (not an offerer) in its first cycle: after the starts the run is at boundary 0, after "deliver round-robin" at
    boundary 1; nobody commits in round 0; the cost goes 12 -> 6.  (2) the refutation instance w03: boundary 0 / 1,
